@@ -170,6 +170,24 @@ namespace c13
         }
       }
       break;
+    case op_rect_apply:
+      if(bs == 2)
+        cmp_vec(0, "rect-block Matrix::apply", true, [&](int, Index b, int c) { long double s = 0; for(Index j = 0; j < B.N; ++j) for(int q = 0; q < 3; ++q) s += (long double)B.a(b, j) * blockR(c, q) * val_u(j, q); return s; }, zero);
+      break;
+    case op_rect_to1:
+      if(bs == 2) for(int r = 0; r < P; ++r)
+      {
+        const auto& R = *w.ranks[size_t(r)];
+        const Index* rp = R.A0r.row_ptr(); const Index* ci = R.A0r.col_ind();
+        if(outs[size_t(r)].mat.size() != size_t(R.A0r.used_elements()) * 6u) { V.fail("rect-block convert_to_1: rank " + std::to_string(r) + " delivered no matrix"); continue; }
+        for(Index i = 0; i < R.ndofs && V.ok(); ++i) for(Index k = rp[i]; k < rp[i + 1]; ++k) for(int p = 0; p < 2; ++p) for(int q = 0; q < 3; ++q)
+        {
+          const double wv = B.a(R.p2b[size_t(i)], R.p2b[size_t(ci[k])]) * blockR(p, q);
+          const double got = outs[size_t(r)].mat[size_t(k) * 6u + size_t(p * 3 + q)];
+          if(!same_bits(got, wv)) { std::ostringstream o; o.precision(17); o << "rect-block convert_to_1: rank " << r << " entry (" << i << "," << ci[k] << ") = base (" << R.p2b[size_t(i)] << "," << R.p2b[size_t(ci[k])] << ") block (" << p << "," << q << ") is " << got << ", expected " << wv; V.fail(o.str()); break; }
+        }
+      }
+      break;
     case op_pcg:
       {
         long double nx = 0; for(double v : p1.x) nx = std::max(nx, fabsl((long double)v));
@@ -258,6 +276,7 @@ namespace c13
     {
       if(op == op_pcg && !bd.do_pcg) continue;
       if(op == op_to1 && !bd.do_to1) continue;
+      if((op == op_rect_apply || op == op_rect_to1) && BS_ != 2) continue;
       if(op == op_pcg && !have_p1) { p1 = solve_base(w); Statistics::reset(); have_p1 = true; }
       const std::string pre = std::to_string(mode) + ":" + std::to_string(op) + ":";
       dead_ctx().c = &c; dead_ctx().key = std::string(op_name(op)) + " " + cls; dead_ctx().pre = pre;
@@ -296,7 +315,7 @@ namespace c13
         stop_case = true;   // one report per case
         break;
       }
-      const bool exact_op = (op == op_gate || op == op_sync0 || op == op_apply || op == op_diag || op == op_lump || op == op_to1) || (w.B.all_pow2 && op != op_pcg);
+      const bool exact_op = (op == op_gate || op == op_sync0 || op == op_apply || op == op_diag || op == op_lump || op == op_to1 || op == op_rect_apply || op == op_rect_to1) || (w.B.all_pow2 && op != op_pcg);
       if(exact_op && digests.size() != 1)
         c.fail(std::string("order dependence: ") + op_name(op) + " " + cls, "exact data, but " + std::to_string(digests.size()) + " distinct result digests over " + std::to_string(ex.stats.executions) + " arrival orders", pre);
       c.outcome(std::string(op_name(op)) + (exact_op ? " exact" : " rounded") + " digests=" + (digests.size() == 1 ? "1" : digests.size() <= 4 ? "2-4" : ">4"));
@@ -329,7 +348,10 @@ namespace c13
         else if(digests.size() != 1) c.fail(std::string("rank interleaving changes the result: ") + op_name(op) + " " + cls, std::to_string(digests.size()) + " digests", "");
       }
     }
-    int maxnb = 0, empties = 0; for(auto& R : w.ranks) { maxnb = std::max(maxnb, int(R->nb.size())); empties += R->empty_mirrors; }
+    int maxnb = 0, empties = 0, nonasc = 0, nmir = 0; for(auto& R : w.ranks) { maxnb = std::max(maxnb, int(R->nb.size())); empties += R->empty_mirrors; nonasc += R->nonasc; nmir += int(R->mirrors.size()); }
+    c.count("mirrors_total", uint64_t(nmir));
+    c.count("mirrors_non_ascending", uint64_t(nonasc));
+    if(nonasc > 0) c.count("cases_with_non_ascending_mirrors");
     c.maxi("neighbours_per_rank", uint64_t(maxnb));
     c.maxi("patches_sharing_a_dof", uint64_t(w.B.max_count));
     c.count("empty_mirrors_skipped", uint64_t(empties));
@@ -402,7 +424,7 @@ namespace c13
     spec.property = "C13";
     spec.harness = C13_HARNESS;
     spec.rule = "case = (base mesh, joint refinements, ranks P, surjective cell->rank assignment, space in {Lagrange1, Lagrange2, CroRavRanTur, DiscontinuousP0}, "
-      "vector kind in {scalar, blocked<2>}); per case both send modes x 11 operations of the real Global::Gate/Vector/Matrix/Filter/PCG on P rank threads over the MPI model; "
+      "vector kind in {scalar, blocked<2>}, patch numbering natural / scrambled (reversed, rotated, FEAT random permutation: mirror index arrays not ascending)); per case both send modes x 13 operations (incl. BCSR<2,2> and rectangular BCSR<2,3> matrices for the blocked kind) of the real Global::Gate/Vector/Matrix/Filter/PCG on P rank threads over the MPI model; "
       "per operation every MPI_Waitany answer sequence (full product of the arrival orders of all ranks; <= D deviations for the PCG run) is executed and compared with a "
       "base-level oracle. Non-trivial = P >= 2 and at least one base dof shared between patches, hashed by the case description.";
 #if C13_FAMILY == 0
@@ -464,9 +486,11 @@ namespace c13
           if(!take) continue;
           for(int space = 0; space < sp_count; ++space)
           for(int bs = 1; bs <= 2; ++bs)
+          for(int rn = 0; rn < 2; ++rn)
           {
             if(!c.want()) continue;
             Cfg cf; cf.mesh = pl.ms; cf.refine = pl.refine; cf.P = P; cf.assign = a; cf.space = space; cf.bs = bs;
+            cf.renum = (rn == 0) ? 0 : 1 + int((idx + space + bs) % 3);   // every configuration also with a scrambled patch numbering
             c.desc([&]{ return cf.str(); });
             Bounds bd;
             bd.pcg_dev = 2;
